@@ -170,6 +170,28 @@ def rest_values(res, tier):
     the value given, boundary values included, not a default the view would fill in for an ABSENT attribute."""
     import impl_xc as X
     vals = [0, 1, 100, 2 ** 16, 2 ** 31, 2 ** 32 - 1]
+    # "in 2- or 4-octet-AS mode": the AS_PATH of an UPDATE asked for over REST is written in the width the two OPENs of the
+    # PRESENT session agreed on (capability 65 in ours - read off the wire - and in the peer's), also after an earlier
+    # session with a peer of the other kind
+    from oracles import parse_open_wire
+    for kind, history in (('as4', ()), ('as2', ()), ('as4', ('as2',)), ('as2', ('as4',))):
+        rest = X.Rest(kind, history=history)
+        if rest.state != 'ESTABLISHED':
+            res.disagree('session setup for the REST AS-width oracle', [kind, list(history)], rest.state, 'ESTABLISHED')
+            continue
+        ours = [w for w in rest.sim.world.connectors[-1].written if w[18] == 1]
+        mine = bool(ours) and any(cc == 65 for cc, _ in parse_open_wire(ours[-1])['caps'])
+        wide = mine and kind == 'as4'
+        want = '4002' + ('0a0202' + '0000fde9' + '0000fde8' if wide else '060202' + 'fde9' + 'fde8')
+        for endpoint in ('send/update', 'json_to_bin'):
+            out = rest.post_attr(endpoint, 2, [[2, [65001, 65000]]])
+            res.stats.case(('rest-aswidth', kind, tuple(history), endpoint), sample=None)
+            res.stats.hit('rest_as_width')
+            if out.get('hex') != want:
+                res.fail('C06', 'AS_PATH asked for over REST %s is not written with %d-octet AS numbers (our OPEN carries capability 65: %s, '
+                                'the peer\'s: %s; earlier sessions: %r): %r' % (endpoint, 4 if wide else 2, mine, kind == 'as4', list(history), out),
+                         {'suite': 'update', 'rest_value': {'peer': kind, 'earlier_peers': list(history), 'endpoint': endpoint, 'code': 2,
+                                                            'value': [[2, [65001, 65000]]]}, 'sent': out, 'expected': want}, key='rest-as-width')
     for remote_as, what in ((65001, 'ibgp'), (65002, 'ebgp')):
         rest = X.Rest('as4', remote_as=remote_as)
         if rest.state != 'ESTABLISHED':
